@@ -117,22 +117,53 @@ func (m *Model) RunLayout(s *Sink, rule string) {
 	pis := m.Method("parser", "Parser", "parseInsertStmt")
 	cdi := m.Method("parser", "Parser", "checkDuplicateInserts")
 	if pis != nil && cdi != nil {
-		n, ok := 0, true
-		for _, b := range pis.Blocks {
-			for _, in := range b.Instrs {
-				mu, isMu := in.(*ssa.MapUpdate)
-				if !isMu || !strings.HasSuffix(fieldPathOf(mu.Map), ".inserts") {
-					continue
-				}
-				n++
-				guarded := false
-				for _, f := range expandFacts(factsAt(b)) {
-					if c, isC := f.Cond.(*ssa.Call); isC && c.Call.StaticCallee() == cdi && !f.Holds {
-						guarded = true
+		// every write of the parser's insert table (wherever it lives: the statement parser or a helper it calls)
+		// happens under "the duplicate test was negative": the false outcome of a call that looks the name up in
+		// the table, or the miss outcome of a comma-ok lookup in it
+		looksUp := func(fn *ssa.Function) bool {
+			if fn == nil || fn.Blocks == nil {
+				return false
+			}
+			for _, b := range fn.Blocks {
+				for _, in := range b.Instrs {
+					if lk, isLk := in.(*ssa.Lookup); isLk && strings.HasSuffix(fieldPathOf(lk.X), ".inserts") {
+						return true
 					}
 				}
-				if !guarded {
-					ok = false
+			}
+			return false
+		}
+		guard := func(b *ssa.BasicBlock) bool {
+			for _, f := range expandFacts(factsAt(b)) {
+				if f.Holds {
+					continue
+				}
+				if c, isC := f.Cond.(*ssa.Call); isC && (c.Call.StaticCallee() == cdi || looksUp(c.Call.StaticCallee())) {
+					return true
+				}
+				if ex, isEx := f.Cond.(*ssa.Extract); isEx && ex.Index == 1 {
+					if lk, isLk := ex.Tuple.(*ssa.Lookup); isLk && strings.HasSuffix(fieldPathOf(lk.X), ".inserts") {
+						return true
+					}
+				}
+			}
+			return false
+		}
+		n, ok := 0, true
+		for _, fn := range m.ModFns {
+			if fn.Blocks == nil || shortPkg(fnPkgPath(fn)) != "parser" {
+				continue
+			}
+			for _, b := range fn.Blocks {
+				for _, in := range b.Instrs {
+					mu, isMu := in.(*ssa.MapUpdate)
+					if !isMu || !strings.HasSuffix(fieldPathOf(mu.Map), ".inserts") {
+						continue
+					}
+					n++
+					if g, _ := m.guardedLifting(mu, guard, 0); !g {
+						ok = false
+					}
 				}
 			}
 		}
